@@ -89,6 +89,7 @@ type FnCtx struct {
 	panicking    *Val
 	notes        map[string]bool
 	ghost        map[string]*Cell
+	lemmaName    string
 }
 
 // ghostCell returns the ghost cell with the given name, creating it (with the
@@ -146,7 +147,7 @@ func (fx *FnCtx) oblige(kind, name string, st *State, cond T, pos token.Pos, cla
 	if n := fx.oblSeq[full]; n > 1 || strings.HasSuffix(full, "#") {
 		full = fmt.Sprintf("%s%d", strings.TrimSuffix(full, "#")+"#", n)
 	}
-	o := &Obligation{Name: full, Kind: kind, Guard: st.guard, Cond: cond, NAssume: len(fx.assumes), Func: fx.root.String(), Clause: clause}
+	o := &Obligation{Name: full, Kind: kind, Guard: st.guard, Cond: cond, NAssume: len(fx.assumes), Func: fx.rootName(), Clause: clause}
 	if pos.IsValid() {
 		o.Pos = fx.eng.prog.Fset.Position(pos)
 	}
@@ -158,6 +159,13 @@ func (fx *FnCtx) oblige(kind, name string, st *State, cond T, pos token.Pos, cla
 	// later obligations may assume this one
 	fx.assume(st.guard, cond)
 	return o
+}
+
+func (fx *FnCtx) rootName() string {
+	if fx.root != nil {
+		return fx.root.String()
+	}
+	return fx.lemmaName
 }
 
 // query builds the SMT text for an obligation.
